@@ -1,5 +1,6 @@
 import YgmVerif.Lemmas.Deliver
 import YgmVerif.Props.C04
+import YgmVerif.Props.C04P
 /-!
 # C01 — every async executes exactly once, on its destination, with its arguments
 
@@ -130,6 +131,32 @@ example : ((run 4 nhDemo St.init demo).map (fun s => (s.executed, quiescent s)))
 /-- executing a message on a rank it is not addressed to is not accepted -/
 example : (run 4 nhDemo St.init [.async 0 7 3 false, .isend 0 2, .recvBegin 2 0 0, .exec 2 7]).isNone = true := by
   decide
+
+/-- the routing schemes make progress under EVERY placement of ranks on nodes (`RouterP.Placement.route_progress`):
+block, round-robin, or any other bijection between ranks and (node, local id) pairs -/
+theorem routerP_progress (P : RouterP.Placement) (hP : P.WF) (sch : Router.Scheme) :
+    Progress P.size (P.nextHop sch) (fun x d => P.hopsLeft sch x d) := by
+  intro r d hr hd hne
+  exact RouterP.Placement.route_progress hP sch hr hd hne
+
+/-- **C01 drain bound for the real router under any placement** (in particular `RouterP.cyclic N p`, the placement
+of `srun -m cyclic` / `mpirun --map-by node`): no message circulates for ever -/
+theorem C01_drain_bounded_routerP (P : RouterP.Placement) (hP : P.WF) (sch : Router.Scheme)
+    (ls0 : List Label) (s : St) (h0 : run P.size (P.nextHop sch) St.init ls0 = some s)
+    (ls : List Label) (hna : ∀ l ∈ ls, isAsync l = false) (s' : St)
+    (h : run P.size (P.nextHop sch) s ls = some s') :
+    ls.length + total P.size (fun x d => P.hopsLeft sch x d) s' ≤
+      total P.size (fun x d => P.hopsLeft sch x d) s :=
+  C01_drain_bounded P.size _ _ (routerP_progress P hP sch) ls0 s h0 ls hna s' h
+
+/-- instance: round-robin placement on every `N × p` layout -/
+theorem C01_drain_bounded_cyclic (sch : Router.Scheme) (N p : Nat)
+    (ls0 : List Label) (s : St) (h0 : run (N * p) ((RouterP.cyclic N p).nextHop sch) St.init ls0 = some s)
+    (ls : List Label) (hna : ∀ l ∈ ls, isAsync l = false) (s' : St)
+    (h : run (N * p) ((RouterP.cyclic N p).nextHop sch) s ls = some s') :
+    ls.length + total (N * p) (fun x d => (RouterP.cyclic N p).hopsLeft sch x d) s' ≤
+      total (N * p) (fun x d => (RouterP.cyclic N p).hopsLeft sch x d) s :=
+  C01_drain_bounded_routerP (RouterP.cyclic N p) (RouterP.cyclic_wf N p) sch ls0 s h0 ls hna s' h
 
 end YgmVerif.Deliver
 
